@@ -109,10 +109,23 @@ impl<T: Eq> HashSet<T> {
     pub fn iter(&self) -> std::slice::Iter<'_, T> { self.entries.iter() }
 }
 
-/// Sorted-Vec stand-in for std::collections::BTreeMap (API subset used by `dht`).
+/// Keys of the `BTreeMap` stand-in map into a small index space (the crate only uses `u8`
+/// distances as keys): lookups go through a direct position table instead of a search loop.
+pub trait SlotKey: Ord + Copy {
+    fn slot(&self) -> usize;
+}
+impl SlotKey for u8 {
+    fn slot(&self) -> usize { *self as usize }
+}
+
+/// Sorted-Vec stand-in for std::collections::BTreeMap (API subset used by `dht`, plus the
+/// neighbouring calls a refactor would plausibly reach for).  `entries` is kept in ascending key
+/// order (iteration order is the real one); `pos[k]` is the entry's index + 1 (0 = absent), so
+/// `get` / `get_mut` / `contains_key` are loop-free.
 #[derive(Clone)]
 pub struct BTreeMap<K, V> {
     entries: Vec<(K, V)>,
+    pos: [u8; 256],
 }
 impl<K, V> std::fmt::Debug for BTreeMap<K, V> {
     fn fmt(&self, f: &mut std::fmt::Formatter<'_>) -> std::fmt::Result {
@@ -120,44 +133,122 @@ impl<K, V> std::fmt::Debug for BTreeMap<K, V> {
     }
 }
 impl<K, V> Default for BTreeMap<K, V> {
-    fn default() -> Self { Self { entries: Vec::new() } }
+    fn default() -> Self { Self { entries: Vec::new(), pos: [0; 256] } }
 }
-impl<K: Ord, V> BTreeMap<K, V> {
-    pub fn new() -> Self { Self { entries: Vec::new() } }
+impl<K: SlotKey, V> BTreeMap<K, V> {
+    pub fn new() -> Self { Self { entries: Vec::new(), pos: [0; 256] } }
     pub fn len(&self) -> usize { self.entries.len() }
     pub fn is_empty(&self) -> bool { self.entries.is_empty() }
-    fn search(&self, k: &K) -> Result<usize, usize> {
+    fn index_of(&self, k: &K) -> Option<usize> {
+        let p = self.pos[k.slot()];
+        if p == 0 { None } else { Some(p as usize - 1) }
+    }
+    fn insertion_point(&self, k: &K) -> usize {
         let mut i = 0;
         while i < self.entries.len() {
-            match self.entries[i].0.cmp(k) {
-                std::cmp::Ordering::Less => i += 1,
-                std::cmp::Ordering::Equal => return Ok(i),
-                std::cmp::Ordering::Greater => return Err(i),
+            if self.entries[i].0 > *k { return i; }
+            i += 1;
+        }
+        i
+    }
+    fn reindex_from(&mut self, from: usize) {
+        let mut j = from;
+        while j < self.entries.len() {
+            self.pos[self.entries[j].0.slot()] = (j + 1) as u8;
+            j += 1;
+        }
+    }
+    pub fn get(&self, k: &K) -> Option<&V> { self.index_of(k).map(|i| &self.entries[i].1) }
+    pub fn get_mut(&mut self, k: &K) -> Option<&mut V> {
+        match self.index_of(k) { Some(i) => Some(&mut self.entries[i].1), None => None }
+    }
+    pub fn contains_key(&self, k: &K) -> bool { self.index_of(k).is_some() }
+    pub fn insert(&mut self, k: K, v: V) -> Option<V> {
+        match self.index_of(&k) {
+            Some(i) => Some(std::mem::replace(&mut self.entries[i].1, v)),
+            None => {
+                assert!(self.entries.len() < 255, "verif-vcoll: BTreeMap stand-in capacity exceeded");
+                let i = self.insertion_point(&k);
+                self.entries.insert(i, (k, v));
+                self.reindex_from(i);
+                None
             }
         }
-        Err(i)
     }
-    pub fn get(&self, k: &K) -> Option<&V> { self.search(k).ok().map(|i| &self.entries[i].1) }
-    pub fn get_mut(&mut self, k: &K) -> Option<&mut V> {
-        match self.search(k) { Ok(i) => Some(&mut self.entries[i].1), Err(_) => None }
-    }
-    pub fn insert(&mut self, k: K, v: V) -> Option<V> {
-        match self.search(&k) {
-            Ok(i) => Some(std::mem::replace(&mut self.entries[i].1, v)),
-            Err(i) => { self.entries.insert(i, (k, v)); None }
+    pub fn remove(&mut self, k: &K) -> Option<V> {
+        match self.index_of(k) {
+            Some(i) => {
+                let (kk, v) = self.entries.remove(i);
+                self.pos[kk.slot()] = 0;
+                self.reindex_from(i);
+                Some(v)
+            }
+            None => None,
         }
     }
+    pub fn clear(&mut self) { self.entries.clear(); self.pos = [0; 256]; }
+    /// splits the map at `k`: returns everything with key >= k, keeps the rest
+    pub fn split_off(&mut self, k: &K) -> Self {
+        let i = self.insertion_point_ge(k);
+        let tail = self.entries.split_off(i);
+        let mut other = Self { entries: tail, pos: [0; 256] };
+        other.reindex_from(0);
+        let mut j = 0;
+        while j < other.entries.len() {
+            self.pos[other.entries[j].0.slot()] = 0;
+            j += 1;
+        }
+        other
+    }
+    fn insertion_point_ge(&self, k: &K) -> usize {
+        let mut i = 0;
+        while i < self.entries.len() {
+            if self.entries[i].0 >= *k { return i; }
+            i += 1;
+        }
+        i
+    }
+    pub fn append(&mut self, other: &mut Self) {
+        let moved: Vec<(K, V)> = std::mem::take(&mut other.entries);
+        other.pos = [0; 256];
+        for (k, v) in moved { self.insert(k, v); }
+    }
+    pub fn retain<F: FnMut(&K, &mut V) -> bool>(&mut self, mut f: F) {
+        self.entries.retain_mut(|(k, v)| f(k, v));
+        self.pos = [0; 256];
+        self.reindex_from(0);
+    }
+    pub fn first_key_value(&self) -> Option<(&K, &V)> { self.entries.first().map(|(k, v)| (k, v)) }
+    pub fn last_key_value(&self) -> Option<(&K, &V)> { self.entries.last().map(|(k, v)| (k, v)) }
+    pub fn keys(&self) -> impl Iterator<Item = &K> { self.entries.iter().map(|(k, _)| k) }
     pub fn values(&self) -> impl Iterator<Item = &V> { self.entries.iter().map(|(_, v)| v) }
     pub fn values_mut(&mut self) -> impl Iterator<Item = &mut V> { self.entries.iter_mut().map(|(_, v)| v) }
     pub fn iter(&self) -> impl Iterator<Item = (&K, &V)> { self.entries.iter().map(|(k, v)| (k, v)) }
+    pub fn iter_mut(&mut self) -> impl Iterator<Item = (&K, &mut V)> { self.entries.iter_mut().map(|(k, v)| (&*k, v)) }
     pub fn entry(&mut self, k: K) -> BEntry<'_, K, V> { BEntry { map: self, key: k } }
 }
+impl<K, V> IntoIterator for BTreeMap<K, V> {
+    type Item = (K, V);
+    type IntoIter = std::vec::IntoIter<(K, V)>;
+    fn into_iter(self) -> Self::IntoIter { self.entries.into_iter() }
+}
 pub struct BEntry<'a, K, V> { map: &'a mut BTreeMap<K, V>, key: K }
-impl<'a, K: Ord, V> BEntry<'a, K, V> {
+impl<'a, K: SlotKey, V> BEntry<'a, K, V> {
     pub fn or_default(self) -> &'a mut V where V: Default {
-        let i = match self.map.search(&self.key) {
-            Ok(i) => i,
-            Err(i) => { self.map.entries.insert(i, (self.key, V::default())); i }
+        self.or_insert_with(V::default)
+    }
+    pub fn or_insert(self, default: V) -> &'a mut V {
+        self.or_insert_with(|| default)
+    }
+    pub fn or_insert_with<F: FnOnce() -> V>(self, f: F) -> &'a mut V {
+        let i = match self.map.index_of(&self.key) {
+            Some(i) => i,
+            None => {
+                let i = self.map.insertion_point(&self.key);
+                self.map.entries.insert(i, (self.key, f()));
+                self.map.reindex_from(i);
+                i
+            }
         };
         &mut self.map.entries[i].1
     }
